@@ -44,6 +44,7 @@ type B struct {
 	nontrivial bool
 	kinds   map[string]int
 	lastPlantedTsr []KV
+	live map[uintptr]string // contexts in use right now (serving, or open Lookup / CloneWith contexts)
 }
 
 type cloneRec struct {
@@ -56,7 +57,7 @@ func newB(rnd *hx.Rand, id int) *B {
 	return &B{rnd: rnd, next: 1, caseID: id,
 		ctxAddr: map[uintptr]int{}, recAddr: map[uintptr]int{}, hdrAddr: map[uintptr]int{}, reqAddr: map[uintptr]int{},
 		routeID: map[uintptr]int{}, treeID: map[uintptr]int{}, foxID: map[uintptr]int{},
-		reqVal: map[*http.Request]*ReqVal{}, hwInit: map[*httptest.ResponseRecorder][]KV{}, kinds: map[string]int{}}
+		reqVal: map[*http.Request]*ReqVal{}, hwInit: map[*httptest.ResponseRecorder][]KV{}, kinds: map[string]int{}, live: map[uintptr]string{}}
 }
 
 func (b *B) tok() string {
@@ -170,6 +171,11 @@ func (b *B) staleParams(capN int) ([]fox.Param, int) {
 // plant overwrites every resettable field of the pooled context with leftovers of
 // earlier requests of this case (or fabricated ones) and mirrors it in the model.
 func (b *B) plant(c fox.Context) uintptr {
+	if d0, _ := fox.VerifCtxDump(c); b.live[d0.ID] != "" {
+		// pool discipline: an object obtained from the pool while it is still in use was Put twice
+		b.fail(fmt.Sprintf("the pool handed out a context that is still in use as %s (same *cTx in the pool twice)", b.live[d0.ID]))
+		return 0
+	}
 	a, d := b.register(c)
 	var s fox.VerifStale
 	s.Params, s.PLen = b.staleParams(d.ParamsCap)
@@ -311,6 +317,13 @@ func (b *B) observe(c fox.Context, a int, spec, why string) int {
 	}
 	b.specs = append(b.specs, spec)
 	return k
+}
+
+// fail records a violation that is not a wrong view (pool discipline) and ends the history
+func (b *B) fail(msg string) {
+	b.panicked = true
+	b.outs = append(b.outs, "OutPanic")
+	b.human = append(b.human, "FAILURE: "+msg)
 }
 
 func (b *B) recovered(what string, r any) {
